@@ -75,6 +75,9 @@ def cases_for(c, parts):
 
 def run(c, parts=("all",)):
     """legs C and O; returns False if the harness could not be built."""
+    if isinstance(parts, str):
+        # the combined checks (lib/merged.py) pass the property id: C20 = the to_number parser, anything else = everything
+        parts = ("number",) if parts.upper().startswith("C20") else ("all",)
     okd, drv, okh, har = build(c)
     if not okh:
         return False
